@@ -142,9 +142,9 @@ Definition step_arg_sub (g : rgraph) : rgraph :=
     | _ => g end) (arg_keys g) g.
 Definition step_redefine (u : universe) (fin : option flt) (g : rgraph) : rgraph :=
   fold_left (fun g k =>
-    let t := match k with KVal _ t _ | KArg t _ => Some t | _ => None end in
+    let t := match k with KVal n t s => Some (n, t, s) | KArg t s => Some (EmptyString, t, s) | _ => None end in
     match t with
-    | Some t => if match fin with Some f => flt_ok u f t | None => true end
+    | Some (n, t, s) => if match fin with Some f => flt_okv u f n t s | None => true end
                 then add_e g k KRoot w_normal else g
     | None => g end) (g_vertex_keys g) g.
 
@@ -532,7 +532,7 @@ Definition redefine (u : universe) (f : fdecl) (defaults opts : list arg)
   | None => Ok (inr XBuild, mkRun (OErr XBuild) [] w t [])
   | Some bo =>
     if match b_fout bo with
-       | Some flt => negb (forallb (fun fld => flt_ok u flt (f_ty fld)) (fn_out f))
+       | Some flt => negb (forallb (fun fld => flt_okv u flt (f_name fld) (f_ty fld) (f_sub fld)) (fn_out f))
        | None => false end
     then Ok (inr XFilterOut, mkRun (OErr XFilterOut) [] w t [])
     else
